@@ -95,6 +95,7 @@ from .edge.base_edge import BaseEdge
 from .edge.edge_landmark import EdgeLandmark
 from .edge.edge_odometry import EdgeOdometry
 from .g2o_parameters import G2OParameterSE2Offset, G2OParameterSE3Offset
+from .pose.se3 import PoseSE3
 from .vertex import Vertex
 
 
@@ -529,9 +530,21 @@ class Graph(object):
             The path where the graph will be saved
 
         """
+        # Every SE(3) landmark edge refers to its offset through a `PARAMS_SE3OFFSET` line, so make sure that line exists
+        g2o_params = dict(self._g2o_params) if self._g2o_params else {}
+        for e in self._edges:
+            if isinstance(e, EdgeLandmark) and isinstance(e.offset, PoseSE3):
+                if e.offset_id is None:
+                    raise ValueError("An SE(3) landmark edge needs an `offset_id` to be written to .g2o")
+                key = ("PARAMS_SE3OFFSET", e.offset_id)
+                if key not in g2o_params:
+                    g2o_params[key] = G2OParameterSE3Offset(key, e.offset)
+                elif not np.array_equal(g2o_params[key].value.to_array(), e.offset.to_array()):
+                    raise ValueError("Conflicting offsets for `offset_id` {}".format(e.offset_id))
+
         with open(outfile, "w") as f:
-            if self._g2o_params:
-                for g2o_param in self._g2o_params.values():
+            if g2o_params:
+                for g2o_param in g2o_params.values():
                     f.write(g2o_param.to_g2o())
 
             for v in self._vertices:
